@@ -18,6 +18,7 @@ extern "C" void __asan_on_error() {
 extern "C" const char *__asan_default_options() { return "halt_on_error=0:detect_leaks=0:print_summary=0"; }
 #endif
 
+#include "keyspace.hpp"
 using mc::Run;
 
 struct Cn {
@@ -45,9 +46,9 @@ template<size_t D, typename T> T my_morton(const Pt<D, T> &p) {
 template<size_t D, typename T> std::string pt_str(const Pt<D, T> &p) { std::string s; for (size_t i = 0; i < D; ++i) { if (i) s += '.'; s += std::to_string(p[i]); } return s; }
 template<size_t D, typename T> Pt<D, T> parse_pt(const std::string &s) { Pt<D, T> p{}; auto v = mc::split(s, '.'); for (size_t i = 0; i < D && i < v.size(); ++i) p[i] = T(strtoull(v[i].c_str(), nullptr, 10)); return p; }
 
-template<size_t D, typename T, size_t E>
+template<size_t D, typename T, size_t E, size_t R = 4>
 struct Explorer {
-    using Index = pgm::MultidimensionalPGMIndex<D, T, E>;
+    using Index = pgm::MultidimensionalPGMIndex<D, T, E, R>;
     using P = Pt<D, T>;
     Run &run; Cn &cn; int prop; const char *cfg;
     int input_order = 0;   // 0: enumeration order, 1: lexicographic, 2: reverse lexicographic
@@ -281,6 +282,54 @@ struct Explorer {
         delete b.idx;
     }
 
+    // family (g): point sets whose sorted Morton codes are exactly the keys of a member of the one-dimensional density family (clusters
+    // whose spacing changes every 300 clusters): the internal index has several levels whose models use their whole error band. Every
+    // stored point must be found, the decoded neighbours of the cluster ends must not.
+    static P decode(T z) { P p{}; for (size_t i = 0; i < D; ++i) for (size_t bb = 0; bb < sizeof(T) * 8 / D; ++bb) if ((z >> (bb * D + i)) & 1) p[i] |= T(1) << bb; return p; }
+    void family_codes(long word, long rep) {
+        ks::FamilySpec fs; fs.kind = "density"; fs.chunks = 1; fs.rep = rep; fs.width = 4; fs.word = word;
+        std::vector<uint64_t> keys, qs;
+        if (!ks::generate_family<uint64_t>(fs, E, keys, qs)) return;
+        if (keys.back() >> (sizeof(T) * 8 / D * D - D) != 0) return;   // a coordinate would be too wide for the encoder
+        std::vector<std::pair<P, int>> cells;
+        for (auto k : keys) cells.emplace_back(decode(T(k)), 1);
+        std::string spec = "codes:" + fs.str();
+        Built b{};
+        b.pts.reserve(cells.size());
+        std::vector<typename Index::value_type> tuples;
+        for (auto &c : cells) { b.pts.push_back(c.first); tuples.push_back(to_tuple<D, T>(c.first)); }
+        run.set_case(case_of(spec, "(build)"));
+        try { b.idx = new Index(tuples.begin(), tuples.end()); } catch (const std::exception &e) { run.violation(case_of(spec, ""), std::string("construction threw: ") + e.what()); return; }
+        for (auto &p : b.pts) b.sorted.emplace_back(my_morton<D, T>(p), p);
+        std::sort(b.sorted.begin(), b.sorted.end());
+        run.add(cn.multisets); run.add(cn.nontrivial);
+        if (word == 27) run.sample(case_of(spec, "*contains for every stored point and the neighbours of the cluster ends*"));
+        if (prop == 14 || prop == 17) {
+            std::set<uint64_t> present(keys.begin(), keys.end());
+            for (auto k : keys) {
+                run.add(cn.contains_q);
+                P q = decode(T(k));
+                run.set_case(case_of(spec, "contains=" + pt_str<D, T>(q)));
+                if (!b.idx->contains(to_tuple<D, T>(q))) { run.violation(case_of(spec, "contains=" + pt_str<D, T>(q)), "contains() is false for a stored point"); break; }
+                for (uint64_t nb : {k + 1, k - 1}) if (!present.count(nb)) {
+                    run.add(cn.contains_q);
+                    P a = decode(T(nb));
+                    if (b.idx->contains(to_tuple<D, T>(a))) { run.violation(case_of(spec, "contains=" + pt_str<D, T>(a)), "contains() is true for a point that is not stored"); return; }
+                }
+            }
+        }
+        if (prop == 13 || prop == 17) {
+            P lo{}, hi{}; for (size_t d = 0; d < D; ++d) { lo[d] = 0; hi[d] = T((T(1) << (sizeof(T) * 8 / D - 1)) - 1); }
+            check_box(b, lo, hi, spec);                                   // everything
+            P mid = decode(T(keys[keys.size() / 2]));
+            for (size_t d = 0; d < D; ++d) { lo[d] = mid[d] > 20 ? T(mid[d] - 20) : 0; hi[d] = T(mid[d] + 20); }
+            check_box(b, lo, hi, spec);
+            for (size_t d = 0; d < D; ++d) { lo[d] = 0; hi[d] = mid[d]; }
+            check_box(b, lo, hi, spec);
+        }
+        delete b.idx;
+    }
+
     // family (e): more than 2^15 points, so that the index over the Morton codes is built by the chunked builder with p chunks; a dense
     // grid plus `tail` far points that do not follow the trend of the last segment (and make n % p non-zero).
     void family_large(int p, int tail) {
@@ -318,6 +367,7 @@ struct Explorer {
     void replay(const std::map<std::string, std::string> &m) {
         std::string spec = m.at("cells");
         if (m.count("order")) input_order = atoi(m.at("order").c_str());
+        if (spec.rfind("codes:", 0) == 0) { auto fs = ks::FamilySpec::parse(spec.substr(6)); family_codes(fs.word, fs.rep); return; }
         if (spec.rfind("large:", 0) == 0) { auto parts = mc::split(spec, ':'); family_large(atoi(parts[3].c_str() + 7), atoi(parts[2].c_str() + 5)); return; }
         std::vector<std::pair<P, int>> cells;
         if (spec.rfind("grid", 0) == 0) {
@@ -351,12 +401,13 @@ template<size_t D, typename T> std::vector<T> axis_values(int id) {
     return D == 2 ? std::vector<T>{0, T(top - 1), top} : std::vector<T>{0, top};
 }
 
-template<size_t D, typename T, size_t E>
+template<size_t D, typename T, size_t E, size_t R = 4>
 struct Thunk {
     static const char *&name() { static const char *n = ""; return n; }
     static void run(Run &r, Cn &c, int prop, const Task &t) {
-        Explorer<D, T, E> ex{r, c, prop, name()};
+        Explorer<D, T, E, R> ex{r, c, prop, name()};
         if (t.kind == 5) { ex.family_large(int(t.G), int(t.lo0)); return; }
+        if (t.kind == 7) { ex.family_codes(t.G, t.lo0); return; }
         if (t.kind == 6) {
             for (int h = 3; h <= int(sizeof(T) * 8 / D) - 2; ++h) for (int m : {64, 65, 66, 130}) for (int v = 0; v < 3; ++v) { ex.family_widebox(h, m, v); if (r.deadline_passed()) return; }
             return;
@@ -384,9 +435,10 @@ struct Thunk {
             ex.family_grid(T(t.G), t.lo0, window);
         }
     }
-    static void replay(Run &r, Cn &c, int prop, const std::map<std::string, std::string> &m) { Explorer<D, T, E>{r, c, prop, name()}.replay(m); }
+    static void replay(Run &r, Cn &c, int prop, const std::map<std::string, std::string> &m) { Explorer<D, T, E, R>{r, c, prop, name()}.replay(m); }
 };
 #define CFG(NAME, TIER, D, T, E) [] { Thunk<D, T, E>::name() = NAME; return CfgEntry{NAME, TIER, D, &Thunk<D, T, E>::run, &Thunk<D, T, E>::replay}; }()
+#define CFGR(NAME, TIER, D, T, E, R) [] { Thunk<D, T, E, R>::name() = NAME; return CfgEntry{NAME, TIER, D, &Thunk<D, T, E, R>::run, &Thunk<D, T, E, R>::replay}; }()
 
 int main(int argc, char **argv) {
     auto opt = mc::parse_args(argc, argv);
@@ -397,7 +449,7 @@ int main(int argc, char **argv) {
     Cn cn(run);
     std::vector<CfgEntry> cfgs = {
         CFG("md<2,u32,1>", 0, 2, uint32_t, 1), CFG("md<2,u32,4>", 0, 2, uint32_t, 4), CFG("md<2,u64,16>", 0, 2, uint64_t, 16), CFG("md<3,u32,1>", 0, 3, uint32_t, 1),
-        CFG("md<3,u64,4>", 0, 3, uint64_t, 4), CFG("md<4,u64,1>", 0, 4, uint64_t, 1), CFG("md<2,u32,16>", 1, 2, uint32_t, 16), CFG("md<2,u64,1>", 1, 2, uint64_t, 1), CFG("md<2,u32,64>", 2, 2, uint32_t, 64), CFG("md<2,u64,32>", 2, 2, uint64_t, 32),
+        CFG("md<3,u64,4>", 0, 3, uint64_t, 4), CFG("md<4,u64,1>", 0, 4, uint64_t, 1), CFG("md<2,u32,16>", 1, 2, uint32_t, 16), CFG("md<2,u64,1>", 1, 2, uint64_t, 1), CFG("md<2,u32,64>", 2, 2, uint32_t, 64), CFG("md<2,u64,32>", 2, 2, uint64_t, 32), CFGR("md<2,u64,1,40>", 3, 2, uint64_t, 1, 40), CFGR("md<3,u32,2,33>", 3, 3, uint32_t, 2, 33),
     };
     // self-check of the harness's Morton code against the library's on a few points (harness error, never a violation)
     {
@@ -428,6 +480,14 @@ int main(int argc, char **argv) {
     for (size_t c = 0; c < cfgs.size(); ++c) {
         if (cfgs[c].tier == 1 && !thorough) continue;
         size_t D = cfgs[c].D;
+        if (cfgs[c].tier == 3) {   // EpsilonRecursive above the linear-scan threshold: the routing takes the binary-search path; large inputs only
+            for (long p : {1L, 8L}) for (long tail : {7L, 19L}) { Task t{int(c), 5, {}, 0, p, tail, {}}; tasks.push_back(t); }
+            if (D == 2) for (long m = 1; m <= 600; m += 200) { Task t{int(c), 3, {}, 0, m, 0, {}}; tasks.push_back(t); }
+            for (long w : (thorough ? std::vector<long>{0, 27, 39, 57, 78, 114, 141, 177, 201, 228, 255} : std::vector<long>{27, 57, 114, 228})) { Task t{int(c), 7, {}, 0, w, 300, {}}; tasks.push_back(t); }
+            continue;
+        }
+        // (g) Morton codes taken from the one-dimensional density family
+        if (D <= 3 && !asan) for (long w : (thorough ? std::vector<long>{27, 57, 114, 228} : std::vector<long>{27, 228})) { Task t{int(c), 7, {}, 0, w, 300, {}}; tasks.push_back(t); }
         if (cfgs[c].tier == 2 && !thorough) {   // Epsilon 32 / 64: quick tier runs only the miss-run family
             for (long m = 1; m <= 600; m += 50) { Task t{int(c), 3, {}, 0, m, 0, {}}; tasks.push_back(t); }
             if (!asan) for (long off = 0; off < 16; ++off) { Task t{int(c), 3, {}, 0, off, 1, {}}; tasks.push_back(t); }
@@ -475,7 +535,7 @@ int main(int argc, char **argv) {
     ev.states_counter = "point_multisets_indexed"; ev.transitions_counter = prop == 14 ? "contains_queries_checked" : "box_queries_checked";
     ev.nontrivial_counter = "multisets_with_2plus_distinct_points";
     ev.rule = "real miss_threshold=64; points are supplied in enumeration order, lexicographic order and reverse lexicographic order. (a) every multiplicity vector in {0,1,65}^cells over 3x3 (2D) / 2x2x2 (3D) cell universes (65 copies of an out-of-box cell force the bigmin skip), several coordinate sets incl. the largest encodable coordinate; "
-              "(b) full grids 16x16, 32x32, 8x8x8, 4^4 with every axis-aligned box; (c, thorough) 16x16 grid with every {removed,x1,x2} pattern of a 3x3 window; (e) 33124 / 35937 grid points plus 7 or 19 far points, index built with 2, 8 and 20 chunks (chunked construction); (f) wide thin boxes (2^h wide for every h the coordinate type holds, miss runs of 64/65/66/130 that end just below x = 2^h, three placements of the first hit beyond): BIGMIN decisions at every bit of the code word, all dimensions and coordinate types; (d) miss-run family: a run of m consecutive out-of-box points for every m in 1..600 (and, for every fifth m and 60..70, the same constellation translated to the top bits of the code word) and every split (step 16) of the totals {63..66,127..130,191..193,255..258,319..321,511..513} into two runs separated by an in-box hit, also for Epsilon 32 and 64. " +
+              "(b) full grids 16x16, 32x32, 8x8x8, 4^4 with every axis-aligned box; (c, thorough) 16x16 grid with every {removed,x1,x2} pattern of a 3x3 window; (e) 33124 / 35937 grid points plus 7 or 19 far points, index built with 2, 8 and 20 chunks (chunked construction); (g) point sets whose sorted Morton codes are the keys of members of the one-dimensional density family (1,200 clusters whose spacing changes every 300; also with EpsilonRecursive 33 / 40, the binary-search routing path): contains() for every stored point and for the absent neighbours of every key, three boxes; (f) wide thin boxes (2^h wide for every h the coordinate type holds, miss runs of 64/65/66/130 that end just below x = 2^h, three placements of the first hit beyond): BIGMIN decisions at every bit of the code word, all dimensions and coordinate types; (d) miss-run family: a run of m consecutive out-of-box points for every m in 1..600 (and, for every fifth m and 60..70, the same constellation translated to the top bits of the code word) and every split (step 16) of the totals {63..66,127..130,191..193,255..258,319..321,511..513} into two runs separated by an in-box hit, also for Epsilon 32 and 64. " +
               std::string(prop == 14 ? "Every cell of the universe and cells just outside it / at the largest encodable coordinate are passed to contains(); oracle: membership in the multiset."
                                      : "Every box over the axis values is enumerated; oracle: brute-force filter sorted by the harness's own Morton code, with multiplicity; iteration must end within n+2 steps.") +
               " State = one indexed multiset; transition = one query; non-trivial = at least two distinct points.";
